@@ -20,6 +20,7 @@ EXPLANATION = (
     "and the half-peak crossing points are NOT decided."
     ' (D4 as built) the kept sample sets are evaluated on the three-valued relation of t to the peak index {t < p, t == p, t > p} for NaN stores and np.where forms alike. (D6) counts accumulated along the time axis in an 8-bit integer are refused unless the accumulated mask is one-hot.'
     ' (D2 as built) `M.any()` in a test is an emptiness test when M is a boolean mask; on row labels / positions it asks whether a label is non-zero and is reported.'
+    ' (D7) feature rows are written back by position, or by label only while labels are unique (a frame built with a caller-supplied index and a df.loc write-back is reported).'
 )
 ASSUMPTIONS = [
     "arrays are (waveform, time, trace) or (waveform, time): axis 0 runs across waveforms",
